@@ -122,7 +122,7 @@ pub fn cases(thorough: bool) -> Vec<Case> {
         add("append", format!("(append {} '(9))", a));
     }
     // map / for-each with ticking procedures: once per element, in list order
-    let map_procs = ["(lambda (x) (tick x (- x 1)))", "(lambda (x) (tick x (list x x)))", "-", "(lambda (x) (tick x x))"];
+    let map_procs = ["(lambda (x) (tick x (- x 1)))", "(lambda (x) (tick x (list x x)))", "-", "(lambda (x) (tick x x))", "(lambda (x) (tick x #f))", "(lambda (x) (tick x (< x 2)))", "(lambda (x) (tick x '()))"];
     for l in &d.int_lists {
         for p in map_procs {
             add("map", format!("(map {} {})", p, l));
@@ -136,7 +136,7 @@ pub fn cases(thorough: bool) -> Vec<Case> {
     add("map", "(map car '((1 2) (3 4) (5)))".into());
     add("map", "(map cadr '((a b) (d e) (g h)))".into());
     // folds (minischeme argument order: (f element accumulator))
-    let fold_procs = ["cons", "list", "-", "(lambda (x acc) (tick x (cons x acc)))", "(lambda (x acc) (tick x (- acc x)))", "+"];
+    let fold_procs = ["cons", "list", "-", "(lambda (x acc) (tick x (cons x acc)))", "(lambda (x acc) (tick x (- acc x)))", "+", "(lambda (x acc) (tick x #f))"];
     for l in &d.int_lists {
         for p in fold_procs {
             for init in ["'()", "0"] {
